@@ -33,7 +33,9 @@ def load_targets():
         m = json.load(open(meta))
         d = os.path.dirname(meta)
         out.append({"name": "seeded-" + os.path.basename(d), "patch": f"{d}/patch.diff", "reverse": False,
-                    "expect": m.get("expect", [m.get("property")]), "kind": "seeded"})
+                    "expect": m.get("expect", [m.get("property")]), "kind": "seeded",
+                    "base": m.get("base", "HEAD") if m.get("base") and "Obsoleted" in m.get("status", "") else "HEAD",
+                    "need_sig": m.get("expect_signature_contains")})
     return out
 
 def one(target, props_mode, with_regressions, cases):
@@ -43,7 +45,8 @@ def one(target, props_mode, with_regressions, cases):
     os.makedirs(work)
     res = {"name": name, "kind": target["kind"], "expect": target["expect"], "checks": {}}
     subprocess.run(["git", "-C", REPO, "worktree", "prune"], capture_output=True)
-    rc, out, _ = run(["git", "-C", REPO, "worktree", "add", "--detach", f"{work}/repo", "HEAD"])
+    rc, out, _ = run(["git", "-C", REPO, "worktree", "add", "--detach", f"{work}/repo", target.get("base", "HEAD")])
+    res["base"] = target.get("base", "HEAD")
     if rc != 0:
         res["error"] = "worktree: " + out[-300:]
         return res
@@ -81,9 +84,11 @@ def one(target, props_mode, with_regressions, cases):
             rc, out, secs = run(cmd, timeout=1500, env=env)
             sigs = [l.strip()[len("signature: "):] for l in out.splitlines() if l.strip().startswith("signature: ")]
             summary = [l for l in out.splitlines() if l.startswith("cases=")]
-            res["checks"][p] = {"exit": rc, "seconds": round(secs, 1), "signatures": sigs[:4],
+            res["checks"][p] = {"exit": rc, "seconds": round(secs, 1), "signatures": sigs[:8],
                                 "summary": summary[0] if summary else out[-200:]}
-        res["caught_by"] = [p for p, c in res["checks"].items() if c["exit"] == 1]
+        need = target.get("need_sig")
+        res["caught_by"] = [p for p, c in res["checks"].items() if c["exit"] == 1
+                            and (not need or any(need in s for s in c["signatures"]))]
         res["caught"] = any(p in res["caught_by"] for p in target["expect"]) if target["expect"] else bool(res["caught_by"])
     finally:
         subprocess.run(["git", "-C", REPO, "worktree", "remove", "--force", f"{work}/repo"], capture_output=True)
